@@ -22,7 +22,7 @@ var sqlKeyPool = []any{
 	int64(0), int64(1), int64(2), int64(3), int64(4), int64(5), int64(7), int64(8), int64(9), int64(15), int64(16), int64(17), int64(64), int64(-1), int64(-16),
 	int64(1) << 53, int64(1)<<53 + 1, int64(math.MaxInt64), int64(math.MinInt64),
 	0.5, 1.5, -2.5, 3.14, 1e10, 1e300, -1e300, math.Inf(1), math.Inf(-1),
-	"a", "b", "ab", "abc", "B", "é", "zz", "10", "9",
+	"a", "b", "ab", "abc", "B", "é", "zz", "10", "9", "A", "ABC", "Abd", "b  ",
 	[]byte("a"), []byte{0}, []byte{0, 1}, []byte{255}, []byte("ab"),
 }
 
@@ -342,7 +342,12 @@ func (p *sqlProg) run(nops int) {
 		default:
 			var w string
 			var qa []any
-			switch p.r.Intn(11) {
+			switch p.r.Intn(13) {
+			case 11:
+				// a comparison under another collation: the bytewise tree order cannot narrow it (F62)
+				w, qa = "where k "+gen.Pick(p.r, ops)+" ? collate "+gen.Pick(p.r, []string{"nocase", "rtrim", "binary"}), []any{gen.Pick(p.r, []any{"A", "a", "AB", "abc", "ABC", "b  ", "B", "zz", "Zz"})}
+			case 12:
+				w, qa = "where k >= ? collate nocase and k < ? collate nocase", []any{gen.Pick(p.r, []any{"a", "A", "ab"}), gen.Pick(p.r, []any{"C", "c", "zz"})}
 			case 0:
 				w, qa = "where k "+gen.Pick(p.r, ops)+" ?", []any{sqlKey(p.r, true)}
 			case 1:
